@@ -1177,7 +1177,7 @@ def r_config_plumbing(repo, rep, R):
               'max_step': 'args.max_step'}
     for k, e in expect.items():
         got = src(kd[k]) if k in kd else None
-        if k == 'use_beta' and got != e and k in kd:
+        if k == 'use_beta' and k in kd:
             # the switch judged by what it does: however --disable-beta is declared (store_true under its own name,
             # store_false with dest=..) and however main reads it, the filter is on without the flag and off with it
             from .cli import switch_semantics, eval_switch_expr
